@@ -381,7 +381,10 @@ def _build(spec, i, ctx):
 
   if t == "arp":
     inner = _build(spec, i + 1, ctx)
-    return struct.pack("!HHBBH", rec.get("hwtype", 1), rec.get("prototype", 0x0800), 6, 4, rec["op"]) \
+    # RFC 826: hardware address length is a field of its own ("hwlen": sha / tha are then that many octets, e.g. 8 for
+    # EUI-64 or 20 for InfiniBand); protocol addresses stay 4 octets (the only width POX's builder can emit)
+    hl = rec.get("hwlen", 6)
+    return struct.pack("!HHBBH", rec.get("hwtype", 1), rec.get("prototype", 0x0800), hl, 4, rec["op"]) \
         + bytes(rec["sha"]) + bytes(rec["spa"]) + bytes(rec["tha"]) + bytes(rec["tpa"]) + inner
 
   if t == "ipv4":
